@@ -543,6 +543,9 @@ func c02Compose(levels int) {
 		if (hasNL(c1) || c1 == "% &") && c2 != "%" {
 			nd.Assume(false) // "a &; b" is not a list
 		}
+		if hasBquote(c1) && hasBquote(c2) {
+			nd.Assume(false) // backquotes do not nest textually
+		}
 		ctx = fill(c2, c1)
 	}
 	for i := 0; i+1 < len(ctx); i++ {
